@@ -245,7 +245,10 @@ def execute(c, cases):
         _MG = load_merge()
     _CFG = dict(c)
     from pero_ocr.core.force_alignment import force_align
-    force_align(np.array([[0.0, 1.0], [1.0, 0.0], [0.0, 1.0]]), [0], 1)       # warm the numba kernel before forking
+    try:        # warm the numba kernel before forking (only the compilation matters)
+        force_align(np.array([[0.0, 1.0], [1.0, 0.0], [0.0, 1.0]]), [0], 1)
+    except Exception:
+        pass
     return pmap(_merge_case, cases, procs=6)
 
 
